@@ -156,21 +156,44 @@ def _tname(o):
     return t.__module__ + '.' + t.__qualname__
 
 
+def _extra_attrs(o, known=()):
+    """Instance attributes beyond the declared ones (a cache or marker
+    written onto the object shows up here)."""
+    d = getattr(o, '__dict__', None)
+    if not d:
+        return []
+    return [[k, canon_value(v)] for k, v in sorted(d.items())
+            if k not in known]
+
+
 def canon_props(p):
-    return ['Props', _tname(p),
-            [[s, canon_value(getattr(p, s, '<unset>'))]
-             for s in type(p).__slots__]]
+    out = ['Props', _tname(p),
+           [[s, canon_value(getattr(p, s, '<unset>'))]
+            for s in type(p).__slots__]]
+    extra = _extra_attrs(p, type(p).__slots__)
+    if extra:
+        out.append(['extra', extra])
+    return out
 
 
 def canon_frame(f):
     if isinstance(f, lib.base.Frame):
-        return ['M', _tname(f),
-                [[s, canon_value(getattr(f, s, '<unset>'))]
-                 for s in type(f).__slots__]]
+        out = ['M', _tname(f),
+               [[s, canon_value(getattr(f, s, '<unset>'))]
+                for s in type(f).__slots__]]
+        extra = _extra_attrs(f, type(f).__slots__)
+        if extra:
+            out.append(['extra', extra])
+        return out
     if isinstance(f, lib.header.ContentHeader):
-        return ['H', _tname(f), canon_value(f.class_id),
-                canon_value(f.weight), canon_value(f.body_size),
-                canon_value(f.properties)]
+        out = ['H', _tname(f), canon_value(f.class_id),
+               canon_value(f.weight), canon_value(f.body_size),
+               canon_value(f.properties)]
+        extra = _extra_attrs(f, ('class_id', 'weight', 'body_size',
+                                 'properties'))
+        if extra:
+            out.append(['extra', extra])
+        return out
     if isinstance(f, lib.body.ContentBody):
         return ['B', _tname(f), canon_value(f.value)]
     if isinstance(f, lib.heartbeat.Heartbeat):
